@@ -51,7 +51,18 @@ def ref_npci(case):
     return out, ctl
 
 
-def npci_cases():
+def npci_cases(wide=False):
+    if wide:
+        # thorough tier: every message type, every hop count, address lengths 1..7, network numbers at the 16-bit edges
+        for msg in range(256):
+            for dest in (None, ("rstation", 5, b"\x07")):
+                yield {"dest": dest, "src": None, "msg": msg, "der": False, "prio": 0, "hop": 200, "vendor": 0x0102}
+        for hop in range(256):
+            yield {"dest": ("rstation", 5, b"\x07"), "src": ("rstation", 3, b"\x09"), "msg": None, "der": True, "prio": 3, "hop": hop, "vendor": 0}
+        for ln in range(1, 8):
+            for net in (1, 255, 256, 65534):
+                adr = bytes(range(1, ln + 1))
+                yield {"dest": ("rstation", net, adr), "src": ("rstation", 65535 - net, adr[::-1]), "msg": None, "der": False, "prio": 1, "hop": 7, "vendor": 0}
     dests = [None, ("rstation", 5, b"\x07"), ("rstation", 65534, b"\x01\x02\x03\x04\x05\x06"), ("rbcast", 9, None), ("global", None, None)]
     srcs = [None, ("rstation", 3, b"\x09"), ("rstation", 1, b"\xc0\xa8\x00\x01\xba\xc0")]
     for dest in dests:
@@ -90,7 +101,7 @@ def r1(ctx):
         if key not in results or (results[key][0] and not ok):
             results[key] = (ok, msg)
     n = 0
-    for case in npci_cases():
+    for case in npci_cases(ctx.tier == "thorough"):
         n += 1
         want, ctl = ref_npci(case)
         env = {"self.npduVersion": 1, "self.npduNetMessage": case["msg"], "self.npduVendorID": case["vendor"], "self.npduHopCount": case["hop"],
